@@ -358,6 +358,13 @@ func TestCampaignConcurrent(t *testing.T) {
 		}
 		hx.C.Case(hx.Hash(string(b)), err == nil && nontrivial(c), fmt.Sprintf("goroutines:%d", c.Goroutines), fmt.Sprintf("gomaxprocs:%d", c.Procs), fmt.Sprintf("kinds:%d", len(kinds)), fmt.Sprintf("yield:%v", c.Yield))
 		hx.C.AddExtra("concurrent_calls", int64(len(c.Items)*c.Repeat))
+		if err == nil && nontrivial(c) && len(c.Items) <= 8 {
+			var desc []string
+			for _, it := range c.Items {
+				desc = append(desc, fmt.Sprintf("%s/%s/%dB", it.Entry, it.Kind, len(it.Src)))
+			}
+			hx.C.Sample(len(c.Items), map[string]interface{}{"goroutines": c.Goroutines, "gomaxprocs": c.Procs, "repeat": c.Repeat, "yield": c.Yield, "items": desc})
+		}
 		if err != nil && strings.HasPrefix(err.Error(), "HARNESS:") {
 			t.Fatalf("%v", err)
 		}
